@@ -66,9 +66,10 @@ PROPS["C05"] = {
     "rule": ("GVariant signatures (random to depth 4 incl. maybe, exhaustive to 3/4 nodes, typed shapes, GLib-confirmed vectors, "
              "containers crossing the 255/65535 framing-offset thresholds) x values x {LE,BE} x offsets: library bytes "
              "compared with the reference normal-form serialiser (dict order taken from the library's Dict iteration, fd "
-             "index allocation free); values touching a listed deviation are reported under it, all others judged strictly; "
+             "index allocation free); values touching a listed deviation are reported under it AND (for the two type-level deviations) compared byte-for-byte with the reference "
+             "serialiser switched to a model of exactly those deviations, so that any other difference still shows; the zero-length deviation is recognised by its exact shape; all others judged strictly; "
              "distinct = distinct (signature, endian, offset mod 8)"),
-    "gates": {"quick": {"evaluations": 30000, "distinct": 3000, "passed_trigger_free": 500},
+    "gates": {"quick": {"evaluations": 30000, "distinct": 3000, "passed_trigger_free": 500, "judged_against_deviation_model": 300},
               "thorough": {"evaluations": 300000, "distinct": 10000, "passed_trigger_free": 5000}},
     "assumptions": ["reference serialiser vref::gv (unit-tested against GLib-produced vectors, DESIGN.md A.9)"],
 }
